@@ -415,6 +415,22 @@ def r3_byte_accounting(ctx, rule='C07.R3'):
             good = want is not None and tt[0] == 'bin' and tt[1].startswith(want) and \
                 any(x[0] == 'call' and x[1] == MSG + '::length' for x in walk(tt)) and \
                 any(x[0] == 'field' and x[2] == ACC for x in walk(tt))
+            if not good and want is not None and tt[0] == 'bin' and tt[1].startswith(want) and any(x[0] == 'field' and x[2] == ACC for x in walk(tt)):
+                # the length measured by the caller and handed in: every call passes Message::length of the very message it passes
+                amt = [peel(x) for x in (tt[2], tt[3]) if peel(x)[0] == 'arg']
+                sites = P.call_sites_of(f.key)
+                if len(amt) == 1 and sites:
+                    idx = amt[0][1] - 1
+                    def passes_len(c):
+                        g_ = c.fn
+                        if idx >= len(c.args):
+                            return False
+                        lv = peel(g_.expr_operand(c.args[idx], c.b, 'T'))
+                        if not (lv[0] == 'call' and lv[1] == MSG + '::length' and lv[2]):
+                            return False
+                        m_ = canon(strip_refs(peel(lv[2][0])))
+                        return any(canon(strip_refs(peel(g_.expr_operand(a, c.b, 'T')))) == m_ for k_, a in enumerate(c.args) if k_ != idx)
+                    good = all(passes_len(c) for c in sites)
             ctx.check(good, 'acc-writer:%s' % f.key, 'the queue byte counter is only adjusted by enqueue (+length) and dequeue (-length)', f.where(b), show(tt))
             if good:
                 seen.add(f.key)
